@@ -118,6 +118,24 @@ func checkC19(c *c19Case, o *core.Obs) error {
 		o.Label("variant=" + v.Kind + "/" + v.Place)
 		kinds += v.Kind[:1] + v.Place[:2] + ","
 	}
+	// second pass: the same presentations back to back WITHOUT emptying the pools in between (the
+	// state real callers meet); every result must still be the reference bytes
+	for round := 0; round < 2; round++ {
+		for _, v := range c.Variant {
+			s := base
+			s.Kind, s.Place, s.OX, s.OY, s.PadR, s.PadB, s.Garbage = v.Kind, v.Place, v.OX, v.OY, v.PadR, v.PadB, v.Garbage
+			got, err := encodeImg(s.Build(), c.Opts)
+			if err != nil || !bytes.Equal(ref, got) {
+				return fmt.Errorf("%s: presentation %s/%s encoded right after other presentations of the same picture gives different bytes than the tight NRGBA at the origin (err=%v, len %d vs %d)", codec, v.Kind, v.Place, err, len(got), len(ref))
+			}
+		}
+		if round == 0 {
+			// interleave an unrelated picture of the same size so that pooled buffers hold other content
+			other := base
+			other.Pix = gen.RenderContent(base.W, base.H, "noise", "opaque", base.Garbage^0x1234)
+			encodeImg(other.Build(), c.Opts)
+		}
+	}
 	o.SampleJSON = map[string]any{"img": c.Img.Summary(), "opts": c.Opts.Summary(), "variants": kinds}
 	if c.Img.Colors >= 2 && len(c.Variant) >= 3 {
 		o.NonTrivial("%s|a%v|e%v|s%v|p%d|m%d|%s", codec, c.Img.HasTransparency(), c.Opts.Exact, c.Opts.UseSharpYUV, c.Opts.Preprocessing, c.Opts.Method, kinds)
